@@ -311,7 +311,7 @@ func c09Run(rep *Report, workdir string, class string, files map[string]string, 
 		}
 		// file systems have coarse modification times and esbuild distrusts very fresh files: both
 		// paths (rebuild and fresh) see the same tree, so no sleep is needed for correctness of the oracle
-		rebuilt, df := api.VerifRebuildForWatch(ctx)
+		rebuilt, df := rebuildForWatch(ctx)
 		dirtyFn = df
 		fresh := api.Build(mk())
 		a, b := summarize(rebuilt, dir), summarize(fresh, dir)
